@@ -1,6 +1,7 @@
 //! tlsverif: conformance harness binding the TLA+ specification to the compiled crate.
 mod calls;
 mod consts;
+mod generated_consts;
 mod registry;
 mod defrag;
 mod fuzz;
@@ -126,6 +127,7 @@ fn main() {
         "states-run" => states::cmd_run(&args[2..]),
         "states-fuzz" => states::cmd_fuzz(&args[2..]),
         "defrag-stream" => defrag::cmd_defrag_stream(&args[2..]),
+        "defrag-pause" => defrag::cmd_defrag_pause(&args[2..]),
         _ => {
             eprintln!("unknown command");
             2
